@@ -27,6 +27,11 @@ impl BytesMut {
         requires old(self)@.len() >= 16           // panics otherwise
         ensures r == be_u128(old(self)@.subrange(0, 16)), final(self)@ == old(self)@.subrange(16, old(self)@.len() as int)
     { unimplemented!() }
+    #[verifier::external_body]
+    pub fn get_u8(&mut self) -> (r: u8)
+        requires old(self)@.len() >= 1            // panics otherwise
+        ensures r == old(self)@[0], final(self)@ == old(self)@.subrange(1, old(self)@.len() as int)
+    { unimplemented!() }
 }
 trait SliceBuf {
     spec fn rest(&self) -> Seq<u8>;
